@@ -7,11 +7,15 @@ from .common import S, smt, z3, np, torch, SymTensor, symbolic_factories, Explor
 PID = "C19"
 
 
-def replay_cutoff(r, c):
-    """public API: two H atoms at distance r (Angstrom) with pair_outer_cutoff=c: the pair must be kept iff r < c"""
-    m, p, const = molecule([[1, 1]], [[[0.0, 0, 0], [r, 0, 0]]], "AM1", pair_outer_cutoff=c)
+def replay_cutoff(r, c, direction=(1.0, 0.0, 0.0)):
+    """public API: two H atoms at distance r (Angstrom) along `direction` with pair_outer_cutoff=c: the pair must be kept iff r < c"""
+    import math
+
+    n = math.sqrt(sum(x * x for x in direction)) or 1.0
+    pos = [r * x / n for x in direction]
+    m, p, const = molecule([[1, 1]], [[[0.0, 0, 0], pos]], "AM1", pair_outer_cutoff=c)
     kept = m.rij.shape[0] == 1
-    print("replay cutoff: r=%.4f A, cutoff=%.4f A -> pair kept=%s (documented: %s)" % (r, c, kept, r < c))
+    print("replay cutoff: r=%.4f A along %s, cutoff=%.4f A -> pair kept=%s (documented: %s)" % (r, [round(x / n, 3) for x in direction], c, kept, r < c))
     return kept != (r < c)
 
 
@@ -45,11 +49,12 @@ def ob_a(ob):
 
             rv_ = math.sqrt(float(smt.model_value(m, r2)))
             cv = float(smt.model_value(m, c))
-            # robust witness: move to the middle of the offending window
-            cand = [(rv_, cv), (0.75 * cv, cv), (0.6 * cv, cv), (1.5 * cv, cv)]
+            # robust witness: the solver's own displacement direction, then the middle of the offending window
+            dvec = tuple(float(smt.model_value(m, X[0, 1, k] - X[0, 0, k])) for k in range(3))
+            cand = [(rv_, cv, dvec), (0.5 * (rv_ + cv), cv, dvec), (0.75 * cv, cv, dvec), (0.6 * cv, cv, dvec), (1.5 * cv, cv, dvec), (1.2 * cv, cv, dvec), (0.75 * cv, cv, (1.0, 0.0, 0.0)), (1.5 * cv, cv, (1.0, 0.0, 0.0))]
             hit = [w for w in cand if replay_cutoff(*w)]
             if hit:
-                ob.violation("pair at %.3f A is %s with pair_outer_cutoff=%.3f A" % (hit[0][0], "dropped" if hit[0][0] < hit[0][1] else "kept", hit[0][1]), {"module": "harness.C19", "func": "replay_cutoff", "args": {"r": hit[0][0], "c": hit[0][1]}})
+                ob.violation("pair at %.3f A (direction %s) is %s with pair_outer_cutoff=%.3f A" % (hit[0][0], [round(x, 3) for x in hit[0][2]], "dropped" if hit[0][0] < hit[0][1] else "kept", hit[0][1]), {"module": "harness.C19", "func": "replay_cutoff", "args": {"r": hit[0][0], "c": hit[0][1], "direction": list(hit[0][2])}})
             else:
                 raise HarnessError("cutoff counterexample did not reproduce (r=%g c=%g)" % (rv_, cv))
         else:
